@@ -223,6 +223,31 @@ def context_unit(ctx, src):
     return u
 
 
+ARGS_LOOP = """
+__CPROVER_assigns(z, current_quote, in_space_between_args, verif_exc, ret->count, ret->cur_len, g_nnew, g_npush, g_z0, g_pushval, g_c, g_c2, g_q0, g_quote, g_sp0, g_havenext, g_xerr)
+__CPROVER_loop_invariant(verif_exc == 0 && z <= s->size && !g_xerr && g_quote == current_quote)
+__CPROVER_loop_invariant(current_quote == 0 || current_quote == '"' || current_quote == '\\'')
+__CPROVER_loop_invariant(in_space_between_args || ret->count > 0)
+__CPROVER_decreases(s->size - z)
+"""
+
+
+def args_unit(ctx, src):
+    u = Unit(ctx, 'args')
+    u.raw('#include "contracts/C08_args.h"\n')
+    u.function(src, CC, r'vector<string> split_args\(const string& s\)', new_header='void split_args(vargs* ret, const vstr* s)', ret_zero='',
+               body_prefix=' g_quote = 0; g_xerr = 0; ',
+               rules=[L('vector<string> ret;', ''), SIZES[0], R(r'\bs\[([^\]]+)\]', r's->data[\1]', '+'),
+                      R(r'\bret\.emplace_back\(\);', 'c8_args_new(ret);'), R(r'\bret\.back\(\)\.push_back\(', 'c8_args_push(ret, ', '+'),
+                      R(r'\bisblank\(', 'c8_isblank('),
+                      R(r'for \(size_t z = 0; ([^;]*); z\+\+\) \{',
+                        r'for (size_t z = 0; \1; c8_args_check(current_quote, in_space_between_args, z), z++) { '
+                        r'ARGS_SNAPSHOT(s, z, current_quote, in_space_between_args)'),
+                      L('return ret;', 'return;')],
+               nloops=1, loops={1: ARGS_LOOP})
+    return u
+
+
 def plan(ctx):
     src = Source(ctx.src)
     groups = []
@@ -277,6 +302,11 @@ def plan(ctx):
     groups.append(Group(name='lemma.join_split_context', harness='harness/C08/context.c', entry='l_join_split_context',
                         function='join(split_context(s, d, m), d) == s when accepted', replace=['split_context', 'join_delim'], kind='lemma', min_post=6,
                         replay=RP('lemma_join_split_context')))
+    ua = args_unit(ctx, src)
+    ua.write()
+    ctx.functions_under_contract += ua.functions
+    groups.append(Group(name='split_args', harness='harness/C08/args.c', entry='h_split_args', function='split_args',
+                        enforce='split_args', loops=True, kind='loop-contract', replay=RP('split_args'), timeout=300, stage1=90, fallback_unwind=8, min_post=9))
     return groups
 
 
